@@ -29,7 +29,7 @@ EXPLANATION = (
     "value the branch conditions on the path admit (forward dataflow of constant upper bounds; a COPY_1 "
     "element reached with offset 2048 would need a twelfth offset bit); (8) carquet_zstd_compress / _decompress "
     "against a model of libzstd: OK exactly when the library finished the frame, the caller's extents handed "
-    "over unchanged, and no compression context that the wrapper keeps is left inside an unfinished frame. (8) LZ4 length extensions: every loop that emits 255-bytes while taking 255 off a counter runs exactly while the counter is >= 255 (so the byte after it is below 255), and every loop that adds length bytes reads on exactly after a 255 (R35). (9) the Snappy length preamble is LEB128 on both sides: writer and reader executed for every value on either side of a 7-bit boundary (R38). (10) src/compression holds no mutable file-scope or static-local state other than thread-local contexts and idempotent lazy tables (rule shared with C07): a codec call's result depends on its arguments only, also when calls overlap on several threads. (R46) a staging or page buffer grown because a request does not fit is grown to at least the request: the capacity stored in a `request > capacity` branch is the request, an expression every arm of which contains it, or a value the branch compares with it (clamp or doubling loop) - geometric growth alone serves the first request and under-allocates a later one above twice the capacity. (R47) thread-local or static arrays in src/compression are scratch tables: in every externally visible function that consults one (directly or through helpers of the file), no path from the entry reaches a use without a `memset` of the table or a call to a helper that resets it on all of its paths - a reset skipped on some path lets entries of an earlier call decide what this call emits (lazily built constant tables accepted by the lazy-initialisation rule are not scratch state; today's tree keeps its tables on the stack, so the rule's only instances are its control twins). Decides these clauses, not "
+    "over unchanged, and no compression context that the wrapper keeps is left inside an unfinished frame. (8) LZ4 length extensions: every loop that emits 255-bytes while taking 255 off a counter runs exactly while the counter is >= 255 (so the byte after it is below 255), and every loop that adds length bytes reads on exactly after a 255 (R35). (9) the Snappy length preamble is LEB128 on both sides: writer and reader executed for every value on either side of a 7-bit boundary (R38). (10) src/compression holds no mutable file-scope or static-local state other than thread-local contexts and idempotent lazy tables (rule shared with C07): a codec call's result depends on its arguments only, also when calls overlap on several threads. (R46) a staging or page buffer grown because a request does not fit is grown to at least the request: the capacity stored in a `request > capacity` branch is the request, an expression every arm of which contains it, or a value the branch compares with it (clamp or doubling loop) - geometric growth alone serves the first request and under-allocates a later one above twice the capacity. (R47) thread-local or static arrays in src/compression are scratch tables: in every externally visible function that consults one (directly or through helpers of the file), no path from the entry reaches a use without a `memset` of the table or a call to a helper that resets it on all of its paths - a reset skipped on some path lets entries of an earlier call decide what this call emits (lazily built constant tables accepted by the lazy-initialisation rule are not scratch state; today's tree keeps its tables on the stack, so the rule's only instances are its control twins). (13) the built-in decompressors on valid streams built from the format documents - every element kind, lengths and offsets on either side of every field boundary, overlapping copies at every distance around the widths of block copies - return the bytes the formats define (rule shared with C10). Decides these clauses, not "
     "the round trip nor sufficiency of the bound formulas.")
 
 SN = "src/compression/snappy.c"
@@ -106,6 +106,9 @@ def _gzip_traces(ctx):
 
 def run(ctx):
     P = ctx.P
+    ctx.clause("C09.13 the built-in block decompressors return what the formats define for valid format-built streams (rule shared with C10)")
+    from ..rules import blockfmt
+    ctx.floor("C09 format-built streams through the block decompressors", blockfmt.check(ctx, valid_only=True), 60)
     ctx.clause("C09.12 a match table or scratch table kept per thread (or static) in src/compression is reset in every call before it is consulted: what a compress call emits does not depend on the calls before it (R47)")
     from ..rules import callstate
     ctx.count("per_call_tables", callstate.check(ctx, sorted(set(ctx.P.rel(f.file) for f in ctx.P.lib_functions() if ctx.P.rel(f.file).startswith("src/compression/")))))
